@@ -21,6 +21,15 @@ STRENGTHENED = {"C02-a": "discount domain extended beyond 200 %", "C03-b": "caug
                 "C38-r2": "wide reward pairs judged through BigNum (RewardMonoWide)",
                 "C01-r3": "deterministic type-limit preamble (dividends at the type maximum, small divisors incl. exact multiples) in the wide tier",
                 "C08-r3": "history presets with a liquidation receiver share other than 50 %",
+                "C18-r3": "new monitor Capacity (a new role is accepted while fewer than 32 exist; a grant succeeds while member capacity remains)",
+                "C17-r3": "vacuity guard no longer depends on the code's answers (it pre-empted the PoolPure verdict)",
+                "C20-r3": "frame-condition monitor on accepted updates (every key/flag not named keeps its value) + per-key sweep",
+                "C33-r3": "pending proposal tracked from the history of accepted operations, not from the account's next_owner field",
+                "C30-r3": "a TLC overflow in a later stage no longer masks established violations; histories minting across grow steps after burns",
+                "C37-r3": "monitors ClaimSucceeds / DrainedAtEnd (a well-formed claim must not fail in the bank bookkeeping)",
+                "C40-r3": "non-canonical is_pure bytes in the compared market contents",
+                "C42-r3": "vacuity errors no longer pre-empt the verdict (Rate / Best were already failing)",
+                "C23-r3": "keeper-created cut orders closed inside the lifecycle histories",
                 "C19-r3": "caught by C20 (config buffer policy); C19's classes see the instruction as correctly role-gated",
                 "C36-r2": "delays above 30 days and near u32::MAX in both C36 bindings",
                 "C15-s": "SDK pool view bound at the u128 limits",
@@ -30,7 +39,7 @@ STRENGTHENED = {"C02-a": "discount domain extended beyond 200 %", "C03-b": "caug
 NOT_A_VIOLATION = {
     "C18-r2": "not caught and not a violation of the statement: revoke on a disabled role now FAILS without side effects, so 'granted and not revoked since' still describes who holds the role; reported as 682 drift events on revoke (the precise Roles.tla lets that revoke succeed)",
     "C02-r3": "not caught and, by the seeder's own caveat, no tokens are created or lost: order_fees' pool share is floored separately so pool + receiver is one unit below the floor of value/price, and the trader is charged exactly pool + receiver; reported as 47,503 drift events (the precise Fees.tla computes pool = fee - receiver)",
-    "C18-r3": "not caught: the 32nd role can no longer be enabled (the call fails without side effects), so who holds which role is still exactly 'enabled and granted and not revoked'; reported as 5,372 drift events on enable",
+    "C36-r3": "cannot manifest in the default build: it needs a second store whose timelock config is passed to execute_instruction, and a second store only exists with the cargo feature multi-store",
     "C19-r2": "cannot manifest in the default build: it needs a second store, which only exists with the cargo feature multi-store (the seeder says so); the checks build the default feature set",
 }
 OTHER_PROP = {"C03-b": "C05", "C40-b": "C31", "C19-r3": "C20"}
